@@ -291,12 +291,14 @@ def main(spec, argv=None, env=None):
         run_groups(spec, a.tier, a.seed, violations, stats)
         if not stats.get("group_hang"):
             run_races(spec, a.tier, a.seed, violations, stats)
+        if getattr(spec, "extra_part", None):
+            spec.extra_part(a.tier, a.seed, violations, stats)
     if not lean["ok"] and not any(v.found_input for v in violations):
         names = [f.get("theorem") or f.get("module") or f["kind"] for f in lean["failures"]]
         violations.append(Violation("proof-broken", f"Lean obligations no longer check: {lean['failures']}",
                                     None, None, None, False, broken=f"theorems/modules: {names}"))
     distinct = len(stats.pop("_distinct", set()))
-    n = stats.get("evaluations", 0) + stats.get("races", 0) + stats.get("group_rounds", 0)
+    n = stats.get("evaluations", 0) + stats.get("races", 0) + stats.get("group_rounds", 0) + stats.get("reader_windows", 0)
     corr = {
         "evaluations": n,
         "distinct_nontrivial": distinct + stats.get("races", 0) + stats.get("group_rounds", 0),
@@ -307,6 +309,7 @@ def main(spec, argv=None, env=None):
         "real_thread_races": stats.get("races", 0),
         "races_rejected_by_lean_predicate": stats.get("race_rejected_by_lean", 0),
         "multi_object_race_rounds": stats.get("group_rounds", 0),
+        "reader_windows_on_real_spaces": stats.get("reader_windows", 0),
         "multi_object_outcomes_judged": stats.get("group_objects_judged", 0),
         "multi_object_distinct_outcomes_judged_by_lean": stats.get("group_distinct_outcomes_judged_by_lean", 0),
         "multi_object_outcomes_rejected_by_lean_predicate": stats.get("group_rejected_by_lean", 0),
@@ -327,6 +330,9 @@ def main(spec, argv=None, env=None):
 def replay(spec, path):
     data = json.load(open(path))
     lines = data["case"]
+    if isinstance(lines, dict) and "reader_program" in lines:
+        from checks import c17_reader
+        return c17_reader.replay(path)
     pre = [l for l in lines if l.startswith("cfg ") or l.startswith("cell set")]
     ops = [l for l in lines if l not in pre]
     is_race = any(" race " in l for l in ops)
